@@ -22,6 +22,7 @@ func init() {
 	ruleText["R05.1"] = "for every MapTypes[reflect.ValueOf(p.F)] entry: the value bound for p.F in an interpreter is p.F itself, or fixStdlib both overrides p.F and re-keys mapTypes[override] from reflect.ValueOf(p.F); every re-keying in fixStdlib reads a key that exists in MapTypes; within a package, every bound exported function whose signature is identical to a keyed function's is keyed too"
 	ruleText["R05.3"] = "in the recursive closure of (*itype).methods, no unconditional store merging the result of a recursive call is reachable from the store recording the type's own methods (range over itype.method)"
 	ruleText["R05.4"] = "same analysis as C08/R08.1: no run-time closure writes (assignment, element/field store, also through a one-step local alias) to a variable captured from its generator; receivers and resolved method nodes are per-call values"
+	ruleText["R05.5"] = "getWrapper reaches (*itype).methods through direct calls (depth 2), as (*itype).implements does: wrapper selection and interface satisfaction are decided on the same method set"
 	ruleText["R05.2"] = "in every function that creates a frame with newFrame, each element store into the new frame's data vector (directly or through a local slice of it) has as right-hand side reflect.New(t).Elem(), a copier call, a MakeFunc-built function value, or the frozen exception of directly assigned result slots (call: rvalues)"
 }
 
@@ -33,6 +34,7 @@ func runC05(c *Config, r *Report) {
 	}
 	freshFrameSlots(ic, r, "R05.2")
 	c05R3(ic, r)
+	c05R5(ic, r)
 	// R05.4: method resolution and receiver binding happen per call. The run-time closures keep
 	// no mutable per-call-site state (same analysis as C08/R08.1): a node or receiver cached
 	// in a captured variable is shared by every call through that site, so a method value
@@ -324,4 +326,57 @@ func c05R3(ic *IC, r *Report) {
 	if n == 0 {
 		r.Errorf("R05.3: the recursive method-set closure of (*itype).methods was not recognised")
 	}
+}
+
+// c05R5: which composed wrapper an interpreted value gets when it is handed to compiled code
+// (io.Reader+WriteTo, http.ResponseWriter+Hijacker, ...) is decided on the value's *method
+// set*: promoted methods, methods of embedded compiled types and pointer-receiver methods
+// count, exactly as for `implements`. The selection in getWrapper must therefore be based on
+// (*itype).methods (directly or through a helper); a lookup of directly declared methods only
+// (getMethod) or of interpreted methods only (lookupMethod) silently picks the plain wrapper
+// and the optional interface is never offered to the compiled caller.
+func c05R5(ic *IC, r *Report) {
+	fi := ic.fn(r, "getWrapper")
+	impl := ic.fn(r, "itype.implements")
+	if fi == nil || impl == nil {
+		return
+	}
+	reaches := func(f *FuncInfo) bool {
+		seen := map[*types.Func]bool{}
+		var walk func(d *FuncInfo, depth int) bool
+		walk = func(d *FuncInfo, depth int) bool {
+			found := false
+			ast.Inspect(d.Decl.Body, func(n ast.Node) bool {
+				c, ok := n.(*ast.CallExpr)
+				if !ok || found {
+					return !found
+				}
+				g, ok := calleeOf(ic.Info, c).(*types.Func)
+				if !ok || g.Pkg() != ic.Pk.Types {
+					return true
+				}
+				if canonKey(g.Pkg(), shortKey(objKey(g))) == "interp.itype.methods" {
+					found = true
+					return false
+				}
+				if depth < 2 && !seen[g] {
+					seen[g] = true
+					if gd := ic.G.Funcs[g]; gd != nil && gd.Decl.Body != nil && gd.Decl.Recv == nil {
+						if walk(gd, depth+1) {
+							found = true
+						}
+					}
+				}
+				return true
+			})
+			return found
+		}
+		return walk(f, 0)
+	}
+	if !reaches(impl) {
+		r.Pass("R05.5", "getWrapper/selection-on-method-set", ic.pos(fi.Decl.Pos()), "(*itype).implements is no longer based on (*itype).methods: the sibling rule does not apply")
+		return
+	}
+	r.Check(reaches(fi), "R05.5", "getWrapper/selection-on-method-set", ic.pos(fi.Decl.Pos()), "the composed wrapper is selected on the full method set, like implements",
+		"getWrapper no longer consults (*itype).methods (which (*itype).implements is based on) to decide whether the interpreted type has the methods of a composed wrapper: methods promoted from embedded fields, provided by embedded compiled types or declared on the pointer are not seen, so io.Copy never calls an interpreted WriteTo and the value silently gets the plain wrapper")
 }
